@@ -1,4 +1,4 @@
-prop('C06', families=[dict(name='history', quick=4000, thorough=20000, extra=[], variants=['asan', 'vendor'], variants_thorough=['asan', 'vendor'], timeout=900)],
+prop('C06', extra_modules=['Rounding'], families=[dict(name='history', quick=4000, thorough=20000, extra=[], variants=['asan', 'vendor'], variants_thorough=['asan', 'vendor'], timeout=900)],
      level_text=('Proof (Lean 4): the expert driver\'s call histories are modelled as a state machine (DriverState = perm_c, etree, pivots/perm_r, L, U, equed, R, C; '
                  'stepCall for Fact in DOFACT / SamePattern / SamePattern_SameRowPerm / FACTORED on top of the column LU luFactor with usepr and the remembered pivots of the prior state). '
                  'Proved for every history length and order, every matrix, threshold, candidate order, Trans, every value of the ordering and equilibration oracles: '
